@@ -301,6 +301,8 @@ pub enum Res {
 struct KeysIter<T: El> {
     keys: std::vec::IntoIter<u32>,
     exact: bool,
+    /// honest but loose upper bounds: 0 = as `exact` says, 1 = (0, Some(usize::MAX)), 2 = (len, Some(len + 2^40))
+    loose: u8,
     _p: std::marker::PhantomData<T>,
 }
 impl<T: El> Iterator for KeysIter<T> {
@@ -310,15 +312,31 @@ impl<T: El> Iterator for KeysIter<T> {
         self.keys.next().map(T::mk)
     }
     fn size_hint(&self) -> (usize, Option<usize>) {
-        if self.exact {
-            self.keys.size_hint()
-        } else {
-            (0, None)
+        match self.loose {
+            1 => (0, Some(usize::MAX)),
+            2 => (self.keys.len(), Some(self.keys.len() + (1usize << 40))),
+            _ => {
+                if self.exact {
+                    self.keys.size_hint()
+                } else {
+                    (0, None)
+                }
+            }
         }
     }
 }
 fn kiter<T: El>(keys: &[u32], exact: bool) -> KeysIter<T> {
-    KeysIter { keys: keys.to_vec().into_iter(), exact, _p: std::marker::PhantomData }
+    KeysIter { keys: keys.to_vec().into_iter(), exact, loose: 0, _p: std::marker::PhantomData }
+}
+/// like `kiter`, with the size-hint flavour chosen by `mode % 4` (exact, none, two loose upper bounds)
+fn kiter_h<T: El>(keys: &[u32], mode: usize) -> KeysIter<T> {
+    let mut k = kiter::<T>(keys, mode % 4 == 0);
+    k.loose = match mode % 4 {
+        2 => 1,
+        3 => 2,
+        _ => 0,
+    };
+    k
 }
 
 
@@ -405,7 +423,7 @@ pub fn apply_b<'b, T: El>(b: &'b Bump, v: &mut BVec<'b, T>, op: &VOp, kept: &mut
             Res::Unit
         }
         VOp::ExtendIter(ks) => {
-            v.extend(kiter::<T>(ks, ks.len() % 2 == 0));
+            v.extend(kiter_h::<T>(ks, ks.len() + ks.first().copied().unwrap_or(0) as usize));
             Res::Unit
         }
         VOp::ExtendFromSlice(ks) => {
@@ -648,14 +666,14 @@ pub fn apply_b<'b, T: El>(b: &'b Bump, v: &mut BVec<'b, T>, op: &VOp, kept: &mut
             Res::Keys(ks)
         }
         VOp::FromIterIn(ks) => {
-            let n = BVec::from_iter_in(kiter::<T>(ks, ks.len() % 2 == 1), b);
+            let n = BVec::from_iter_in(kiter_h::<T>(ks, ks.len() + 1 + ks.first().copied().unwrap_or(0) as usize), b);
             let old = std::mem::replace(v, n);
             drop(old);
             Res::Unit
         }
         VOp::CollectIn(ks) => {
             use bumpalo::collections::CollectIn;
-            let n: BVec<'b, T> = kiter::<T>(ks, true).collect_in(b);
+            let n: BVec<'b, T> = kiter_h::<T>(ks, ks.len() + 2 + ks.first().copied().unwrap_or(0) as usize).collect_in(b);
             let old = std::mem::replace(v, n);
             drop(old);
             Res::Unit
@@ -826,7 +844,7 @@ pub fn apply_s<T: El>(v: &mut Vec<T>, op: &VOp, sboxes: &mut Vec<Box<[T]>>) -> R
             Res::Unit
         }
         VOp::ExtendIter(ks) => {
-            v.extend(kiter::<T>(ks, ks.len() % 2 == 0));
+            v.extend(kiter_h::<T>(ks, ks.len() + ks.first().copied().unwrap_or(0) as usize));
             Res::Unit
         }
         VOp::ExtendFromSlice(ks) | VOp::ExtendCopy(ks) => {
@@ -1059,13 +1077,13 @@ pub fn apply_s<T: El>(v: &mut Vec<T>, op: &VOp, sboxes: &mut Vec<Box<[T]>>) -> R
             Res::Keys(ks)
         }
         VOp::FromIterIn(ks) => {
-            let n: Vec<T> = kiter::<T>(ks, ks.len() % 2 == 1).collect();
+            let n: Vec<T> = kiter_h::<T>(ks, ks.len() + 1 + ks.first().copied().unwrap_or(0) as usize).collect();
             let old = std::mem::replace(v, n);
             drop(old);
             Res::Unit
         }
         VOp::CollectIn(ks) => {
-            let n: Vec<T> = kiter::<T>(ks, true).collect();
+            let n: Vec<T> = kiter_h::<T>(ks, ks.len() + 2 + ks.first().copied().unwrap_or(0) as usize).collect();
             let old = std::mem::replace(v, n);
             drop(old);
             Res::Unit
